@@ -307,7 +307,7 @@ fn order_independence(rep: &mut Reporter) -> bool {
 
 fn toml_roundtrip(rep: &mut Reporter) -> u64 {
     type Inv = Inventory<semver::Version, Sha256, Option<std::collections::BTreeMap<String, String>>>;
-    let urls = ["https://e.com/a", "", "a b", "q\"uote", "back\\slash", "new\nline", "tab\t", "é😀", "'''", "# = [x]", "\u{0}\u{7f}"];
+    let urls = ["https://e.com/a", "", "a b", "q\"uote", "back\\slash", "new\nline", "tab\t", "é😀", "'''", "# = [x]", "\u{0}\u{7f}", "blanks before a break: \nsecond \t\n\u{a0}\nlast  "];
     let versions = ["1.0.0", "0.0.0", "10.2.3-rc.1+build"];
     let mut md = std::collections::BTreeMap::new();
     md.insert("k".to_string(), "v\"\n".to_string());
